@@ -22,7 +22,20 @@ WellFormed(e) == \A j \in 1..Len(e.c.block) :
 \* the probe step also repeats every value string of the block: expanded AFTER the block, under the final env
 RECURSIVE Repeats(_, _, _, _)
 Repeats(mode, env, blk, j) == IF j > Len(blk) THEN "" ELSE ExpandStr(mode, env, blk[j].v) \o ";" \o Repeats(mode, env, blk, j + 1)
+\* two entries END under one name: which of them survives is not stated (the verdict on values, probes and exports is
+\* withheld) - but the rewritten block is still a mapping: one entry per final name, each an entry the fold produced
+Collides(e) == LET want == FoldBlock(e.c.mode, e.c.prefer, Block(e), Env0(e))
+               IN ~want.err /\ \E i, j \in 1..Len(want.block) : i # j /\ want.block[i].k = want.block[j].k
+CollideOK(e) ==
+    LET want == FoldBlock(e.c.mode, e.c.prefer, Block(e), Env0(e)) IN
+    /\ ~e.panic
+    /\ \/ e.err
+       \/ /\ e.wf
+          /\ \A i, j \in 1..Len(e.block) : i # j => e.block[i][1] # e.block[j][1]
+          /\ {e.block[i][1] : i \in 1..Len(e.block)} = {want.block[i].k : i \in 1..Len(want.block)}
+          /\ \A i \in 1..Len(e.block) : \E j \in 1..Len(want.block) : want.block[j] = P(e.block[i][1], e.block[i][2])
 EventOK(e) ==
+    IF Collides(e) THEN CollideOK(e) ELSE
     LET want == FoldBlock(e.c.mode, e.c.prefer, Block(e), Env0(e))
         \* (a BARE pipeline - nothing but the env block: no step, no other top-level key - has no "rest" that could fail or be probed;
         \*  the block is still expanded, rewritten and exported)
@@ -32,6 +45,7 @@ EventOK(e) ==
     /\ IF want.err \/ laterFails THEN e.err                          \* a failed expansion is reported
        ELSE /\ ~e.err
             /\ KV(e.block) = want.block                               \* rewritten in place, definition order
+            /\ e.wf                                                   \* ... and still a mapping (Len and Get agree with what Range shows)
             /\ (e.bare \/ e.probe = ProbeStr(e.c.mode, want.env, e.c.probe) \o "|" \o Repeats(e.c.mode, want.env, Block(e), 1))   \* what the rest of the pipeline saw
             /\ (e.bare \/ (e.probetop[1] = e.probe /\ e.probetop[2] = e.probe))     \* ... top-level settings included, wherever they are written
             /\ \A j \in 1..Len(e.lookups) :                           \* what was exported to / kept in the caller env
